@@ -86,3 +86,70 @@ Theorem C11_e2e_group_order_irrelevant : forall (F : Type) (fcal : Z -> F -> F) 
                   try_from_banks_model fcal gain_of m run banks order' = Ok ev' -> ev_eq ev ev').
 Proof. exact e2e_group_order_irrelevant. Qed.
 Print Assumptions C11_e2e_group_order_irrelevant.
+
+(* =============================================================================================== avalanches *)
+From AG Require Import Signal.Ring Signal.Avalanches Signal.AvalTotal Event.EventSlots Event.E2E_more_proofs.
+(* Event/EventSlots.v: main_event_of turns the assembled event (occupied slots) into the MainEvent value the avalanche
+   stage consumes - the [Option<Vec<f64>>; 256] and [[Option<Vec<f64>>; 576]; 32] arrays and the timestamp.  It has the
+   shape of the Rust arrays, holds at every index exactly that slot's content, and RESPECTS ev_eq: events with the same
+   timestamp and the same content of every wire and pad slot are the same MainEvent value *)
+Theorem C11_main_event_respects_ev_eq : forall (F : Type) (a b : event F),
+  event_shape (main_event_of a) /\
+  (forall w, w < 256 -> nth_error (wire_signals (main_event_of a)) (N.to_nat w) = Some (wire_at a w)) /\
+  (forall c r, c < 32 -> r < 576 -> exists col, nth_error (pad_signals (main_event_of a)) (N.to_nat c) = Some col /\
+                                                nth_error col (N.to_nat r) = Some (pad_at a c r)) /\
+  (ev_eq a b -> main_event_of a = main_event_of b).
+Proof.
+  intros F a b. split; [apply main_event_of_shape|]. split; [exact (wire_slots_nth a)|].
+  split; [exact (pad_slots_nth a)|exact (main_event_of_ev_eq a b)].
+Qed.
+Print Assumptions C11_main_event_respects_ev_eq.
+
+(* the avalanche stage is a FUNCTION of the slot contents: the panic-aware model avalanches_res (C09) and the pure
+   skeleton `avalanches` (C13) take nothing of the event but the two slot arrays, so ev_eq events give equal results
+   (Ok list, in order / panic alike), for every instance of the kernels (Cholesky solve, deconvolutions, sorts, centroid) *)
+Theorem C11_avalanches_respect_ev_eq : forall (F amp zt : Type) (azero : amp) (apos : amp -> bool) (agt : amp -> amp -> bool)
+    (pcmp : amp -> amp -> option comparison) (zf : N -> amp -> amp -> amp -> zt) (slen : list F -> nat)
+    (solve : nat -> list (list F) -> list (list amp)) (wdec : list amp -> res (list amp))
+    (pdec : list F -> res (list amp)) (D : list (list F) -> list (list amp)) (P : list F -> list amp)
+    (sortW : list (N * amp) -> list (N * amp)) (sortP : list (zt * amp) -> list (zt * amp)) (a b : event F),
+  ev_eq a b ->
+  avalanches_res azero apos agt pcmp zf slen solve wdec pdec sortW sortP (wire_slots a) (pad_slots a) =
+  avalanches_res azero apos agt pcmp zf slen solve wdec pdec sortW sortP (wire_slots b) (pad_slots b) /\
+  avalanches azero apos agt zf D P sortW sortP (wire_slots a) (pad_slots a) =
+  avalanches azero apos agt zf D P sortW sortP (wire_slots b) (pad_slots b) /\
+  timestamp_res (main_event_of a) = timestamp_res (main_event_of b).
+Proof. exact avalanches_respect_ev_eq. Qed.
+Print Assumptions C11_avalanches_respect_ev_eq.
+
+(* together with C11_e2e_build_perm_invariant: for every permutation of the RAW bank list and any two HashMap iteration
+   orders, success is alike, and on success the MainEvent values are EQUAL, hence the avalanche model outputs (and the
+   timestamp) are equal - the same list in the same order, or the same panic *)
+Theorem C11_e2e_avalanches_perm_invariant : forall (F : Type) (fcal : Z -> F -> F) (gain_of : Z * Z -> F) (m : ovf) (run : N)
+    (banks banks' : list (list N * list N)) (order order' : list (list chunkv) -> list (list chunkv)),
+  Forall bytes (map snd banks) -> Permutation banks banks' -> is_order order -> is_order order' ->
+  is_ok (try_from_banks_model fcal gain_of m run banks order) =
+  is_ok (try_from_banks_model fcal gain_of m run banks' order') /\
+  (forall ev ev', try_from_banks_model fcal gain_of m run banks order = Ok ev ->
+                  try_from_banks_model fcal gain_of m run banks' order' = Ok ev' ->
+     main_event_of ev = main_event_of ev' /\
+     forall (amp zt : Type) (azero : amp) (apos : amp -> bool) (agt : amp -> amp -> bool)
+       (pcmp : amp -> amp -> option comparison) (zf : N -> amp -> amp -> amp -> zt) (slen : list F -> nat)
+       (solve : nat -> list (list F) -> list (list amp)) (wdec : list amp -> res (list amp))
+       (pdec : list F -> res (list amp)) (D : list (list F) -> list (list amp)) (P : list F -> list amp)
+       (sortW : list (N * amp) -> list (N * amp)) (sortP : list (zt * amp) -> list (zt * amp)),
+     avalanches_res azero apos agt pcmp zf slen solve wdec pdec sortW sortP (wire_slots ev) (pad_slots ev) =
+     avalanches_res azero apos agt pcmp zf slen solve wdec pdec sortW sortP (wire_slots ev') (pad_slots ev') /\
+     avalanches azero apos agt zf D P sortW sortP (wire_slots ev) (pad_slots ev) =
+     avalanches azero apos agt zf D P sortW sortP (wire_slots ev') (pad_slots ev') /\
+     timestamp_res (main_event_of ev) = timestamp_res (main_event_of ev')).
+Proof. exact e2e_avalanches_perm_invariant. Qed.
+Print Assumptions C11_e2e_avalanches_perm_invariant.
+
+(* non-vacuity: the slot arrays of the accepted example event: wire slot 34 of 256 and pad slot (13, 7) of 32 x 576 are
+   occupied, their neighbours empty *)
+Example C11_slots_nonvacuous :
+  nth_error (wire_slots ex_event) 34 = Some (Some [6; 8]%Z) /\ nth_error (wire_slots ex_event) 35 = Some None /\
+  option_map (fun col => nth_error col 7) (nth_error (pad_slots ex_event) 13) = Some (Some (Some [-9; -6]%Z)) /\
+  length (wire_slots ex_event) = 256%nat /\ length (pad_slots ex_event) = 32%nat.
+Proof. vm_compute. repeat split; reflexivity. Qed.
